@@ -253,6 +253,23 @@ func runScenario(si int, s Scenario) scenResult {
 		}
 	}
 	time.Sleep(150 * time.Millisecond)
+	if !expired {
+		// the readers may lag behind on a busy machine: what the server wrote before closing
+		// is in the socket; give every reader up to 3 s to reach the end of its stream
+		dl := time.Now().Add(3 * time.Second)
+		for time.Now().Before(dl) {
+			all := true
+			for _, c := range conns {
+				if _, _, closed := c.Packets(); !closed {
+					all = false
+				}
+			}
+			if all {
+				break
+			}
+			time.Sleep(5 * time.Millisecond)
+		}
+	}
 	d.mu.Lock()
 	lastHandler := d.last
 	d.mu.Unlock()
